@@ -238,6 +238,11 @@ func c20Behaviour(t *testing.T, kind string, seed uint64) rt.Result {
 			if !served(b) || !served(a) {
 				w.Violate("a peer added while serving does not accept inbound connections")
 			}
+			// a passive peer stays passive after its inbound connection has come and gone
+			time.Sleep(12 * time.Second)
+			if n := dialsTo(b); n != 0 {
+				w.Violate("a passive peer made %d outbound attempt(s) after an inbound connection had gone down", n)
+			}
 		case "delete-stops":
 			pa := hz.StdPeer(a.String())
 			w.MustAddPeer(pa)
